@@ -30,9 +30,15 @@ namespace cppcms {
 		std::list<std::string> *output_buffer_;
 	};
 
-	struct copy_filter::data {};
+	struct copy_filter::data {
+		// std::ios::rdbuf(sb) clears the error state of the stream: it is kept here and put
+		// back with the original buffer, the stream has not become any better in between
+		std::ios_base::iostate state;
+		data(std::ios_base::iostate s) : state(s) {}
+	};
 
 	copy_filter::copy_filter(std::ostream &output) :
+		d(new data(output.rdstate())),
 		output_(output),
 		real_output_stream_(output.rdbuf(&copy_buffer_)),
 		detached_(false)
@@ -46,7 +52,10 @@ namespace cppcms {
 		output_ << std::flush;
 		copy_buffer_.reset_device();
 		detached_ = true;
+		std::ios_base::iostate failed = (d->state | real_output_stream_.rdstate()) & (std::ios_base::badbit | std::ios_base::failbit);
 		output_.rdbuf(real_output_stream_.rdbuf(0));
+		if(failed)
+			output_.setstate(failed);
 		size_t len = 0;
 		std::list<std::string>::iterator p;
 		for(p=data_.begin();p!=data_.end();p++)
@@ -61,7 +70,13 @@ namespace cppcms {
 	copy_filter::~copy_filter()
 	{
 		if(!detached_) {
+			std::ios_base::iostate failed = (d->state | real_output_stream_.rdstate()) & (std::ios_base::badbit | std::ios_base::failbit);
 			output_.rdbuf(real_output_stream_.rdbuf(0));
+			try {
+				if(failed)
+					output_.setstate(failed);
+			}
+			catch(...) {}
 		}
 	}
 
